@@ -54,11 +54,37 @@ def a64_encoding_tables(repo):
         for t in re.findall(r"EncodingData::(\w+)\[encoding_index\]", ln):
             for c in cur_cases:
                 enc2tab.setdefault(c, set()).add(t)
+    # encodings whose case block never mentions encoding_index have no EncodingData look-up at all
+    uses_index = set()
+    cur_cases, last_was_case = [], False
+    for ln in lines:
+        mc = re.match(r"\s*case InstDB::kEncoding(\w+):", ln)
+        if mc:
+            if not last_was_case:
+                cur_cases = []
+            cur_cases.append(mc.group(1)); last_was_case = True
+            continue
+        if ln.strip() and not ln.strip().startswith("//"):
+            last_was_case = False
+        if re.search(r"\bencoding_index\b(?! = \d+;)", ln):
+            uses_index.update(cur_cases)
+    # `encoding_index = <n>; goto <Label>;` : a constant index into the table of the case that carries <Label>
+    label_case = {lab: enc for enc, lab in re.findall(r"case InstDB::kEncoding(\w+): (\w+): \{", src)}
+    const_jumps = []
+    for i, ln in enumerate(lines):
+        mi = re.search(r"\bencoding_index = (\d+);", ln)
+        if mi:
+            mg = re.search(r"goto (\w+);", " ".join(lines[i:i + 3]))
+            const_jumps.append((int(mi.group(1)), mg.group(1) if mg else None))
     out, unsupported = {}, []
+    a64_encoding_tables.no_table = sorted(n for n in names if n not in uses_index and n != "None" and n not in enc2tab)
+    a64_encoding_tables.const_jumps = [(n, lab, label_case.get(lab)) for n, lab in const_jumps]
     for n in names:
         ts = enc2tab.get(n)
         if n == "None":
             continue
+        if not ts and n not in uses_index:
+            continue                      # no EncodingData look-up in this case block
         if not ts or len(ts) != 1 or list(ts)[0] not in decl:
             unsupported.append(n)
             continue
@@ -116,6 +142,9 @@ def generate(ck):
     A("Definition x86_inst_main_idx : list Z := %s." % zl([r[0] for r in rx["x86_inst"]]))
     A("Definition x86_inst_alt_idx : list Z := %s." % zl([r[1] for r in rx["x86_inst"]]))
     A("Definition x86_inst_common_idx : list Z := %s." % zl([r[2] for r in rx["x86_inst"]]))
+    legacy = [r for r in rx["x86_inst"] if r[3] < cx["encoding_fpu_first"] or cx["encoding_ext_first"] <= r[3] < cx["encoding_vex_first"]]
+    A("(* opcodes (main and alternative) of the rows whose encoding is emitted by the legacy EmitX86* tails *)")
+    A("Definition x86_legacy_opcodes : list Z := %s." % zl([tx["main_opcode_table"][r[0]] for r in legacy] + [tx["alt_opcode_table"][r[1]] for r in legacy]))
     A("Definition x86_common_sig_last : list Z := %s." % zl([r[0] + r[1] - 1 if r[1] else 0 for r in rx["x86_common"]]))
     A("Definition x86_isig_opsig_max : list Z := %s." % zl([r[1] for r in rx["x86_isig"]]))
     # a64: per encoding the list of encoding_data_index values
@@ -174,6 +203,9 @@ def generate(ck):
          lenof("opcode_pop_sreg_table", tx), "x86_opcode_pop_sreg_table", "(upto (x86c_sreg_id_count - 1))", "site_pop_sreg")
     site("x86assembler.cpp emit_pp: opcode_pp_table[(opcode >> kPP_Shift) & (kPP_FPUMask >> kPP_Shift)]", lenof("opcode_pp_table", tx),
          "x86_opcode_pp_table", "(upto x86c_pp_index_max)")
+    site("x86assembler.cpp emit_mm_and_opcode (EmitX86Op/OpReg/OpImplicitMem/R/RFromM/M): opcode_mm_table[(opcode & kMM_Mask) >> kMM_Shift] for the "
+         "main and alternative opcodes of every row with a non-VEX, non-x87 encoding", lenof("opcode_mm_table", tx), "x86_opcode_mm_table",
+         "(map (fun o => Z.land (Z.shiftr o x86c_mm_shift) x86c_mm_index_max) x86_legacy_opcodes)", "site_opcode_mm")
     site("x86assembler.cpp: vex_prefix_table[x & 0xF]", lenof("vex_prefix_table", tx), "x86_vex_prefix_table", "(upto 15)")
     site("x86assembler.cpp: cdisp8_shl_table[TTWLL] (5-bit field)", lenof("cdisp8_shl_table", tx), "x86_cdisp8_shl_table", "(upto 31)")
     site("x86assembler.cpp: mod16_base_table[rb_reg & 7]", lenof("mod16_base_table", tx), "x86_mod16_base_table", "(upto 7)")
@@ -214,6 +246,14 @@ def generate(ck):
             site("a64assembler.cpp case kEncoding%s: EncodingData::%s[inst_info->_encoding_data_index] for every instruction row" % (nm, t),
                  str(ln), "(zeros %d)" % ln, zl(by_enc[enc]))
             n_enc_sites += 1
+    n_const = 0
+    for (idx, lab, enc) in getattr(a64_encoding_tables, "const_jumps", []):
+        if enc in enc2tab:
+            t, ln = enc2tab[enc]
+            site("a64assembler.cpp `encoding_index = %d; goto %s;`: EncodingData::%s[%d]" % (idx, lab, t, idx), str(ln), "(zeros %d)" % ln, "[%d]" % idx)
+            n_const += 1
+        else:
+            unsupported.append("const-jump:%s" % lab)
     A("Definition named_sites : list site := [")
     A(";\n".join(nsites))
     A("].")
@@ -261,6 +301,18 @@ def generate(ck):
     ]
     stale = []
     cache = {}
+    xsrc = open(os.path.join(vlib.REPO, "asmjit/x86/x86assembler.cpp")).read()
+    pos = xsrc.find("case InstDB::kEncodingVexOp:")
+    tail_end = xsrc.find("EmitX86OpMovAbs:")
+    if pos < 0 or tail_end < pos or re.search(r"goto (EmitX86\w*|CaseExt\w*|CaseX86\w*|CaseFpu\w*);", xsrc[pos:tail_end]):
+        stale.append("asmjit/x86/x86assembler.cpp: a VEX/EVEX/AMX encoding case reaches a legacy EmitX86* tail (opcode_mm_table site assumes it does not)")
+    hsrc = open(os.path.join(vlib.REPO, "asmjit/x86/x86instdb_p.h")).read()
+    mf = re.search(r"kEncodingFpuOp,(.*?)kEncodingExtRm,", hsrc, re.S)
+    if not mf or [e for e in re.findall(r"kEncoding(\w+)", mf.group(1)) if not e.startswith("Fpu")]:
+        stale.append("asmjit/x86/x86instdb_p.h: encodings between kEncodingFpuOp and kEncodingExtRm are no longer all Fpu*")
+    mh = re.search(r"kEncodingVexOp,(.*?)kEncodingCount", hsrc, re.S)
+    if not mh or [e for e in re.findall(r"kEncoding(\w+)", mh.group(1)) if not e.startswith(("Vex", "Fma4", "Amx"))]:
+        stale.append("asmjit/x86/x86instdb_p.h: encodings after kEncodingVexOp are no longer all Vex*/Fma4*/Amx*")
     for f, pat in expect:
         if f not in cache:
             cache[f] = open(os.path.join(vlib.REPO, f)).read()
@@ -269,7 +321,7 @@ def generate(ck):
     text = "\n".join(L) + "\n"
     info = {"sites": len(sites) + len(nsites), "a64_encoding_sites": n_enc_sites, "a64_encodings_unsupported": unsupported,
             "x86_rows": len(rx["x86_inst"]), "a64_rows": len(ra["a64_inst"]),
-            "a64_encodings_in_rows": len(by_enc), "stale_site_transcriptions": stale, "a64_size_op_guarded": guarded, "a64_size_op_expression_recognised": size_op_recognised, "tables": sorted(list(tx) + list(ta))}
+            "a64_encodings_in_rows": len(by_enc), "a64_encodings_without_table_lookup": getattr(a64_encoding_tables, "no_table", []), "a64_const_index_sites": n_const, "x86_legacy_rows": len(legacy), "stale_site_transcriptions": stale, "a64_size_op_guarded": guarded, "a64_size_op_expression_recognised": size_op_recognised, "tables": sorted(list(tx) + list(ta))}
     return text, info
 
 
